@@ -16,6 +16,14 @@ def design_level(ctx):
                       timeout=600 if q else 3000, label="PoA v1, n <= %d" % (3 if q else 4))
     if not q:
         ctx.tlc_must_hold(SUB, "MCScheduler", cfg="MCSched_n6.cfg", workers=4, timeout=3000, label="PoS (same slot rule as PoA v2, plus weights), n <= 6, T = 1")
+    # the seeder: every block tree up to 6 (thorough 7) blocks, every best block, every Generate/cache history
+    ctx.tlc_must_hold(SUB, "MCSeeder", cfg="MCSeeder_quick.cfg" if q else "MCSeeder_thorough.cfg", workers=4,
+                      timeout=600 if q else 3000, label="Seeder: seed = beta of the parent's own ancestor, cache sound")
+    sg = open(ctx.specdir(SUB) + "/MCSeeder_quick.cfg").read().replace("INVARIANT P_Stable", "INVARIANT X_SeedOnBestChain")
+    r = ctx.tlc(SUB, "MCSeeder", cfg="guard.cfg", files={"guard.cfg": sg}, workers=4, timeout=600, count=False,
+                label="vacuity guard X_SeedOnBestChain")
+    if r.invariant != "X_SeedOnBestChain":
+        raise Infra("vacuity guard: 'the seed block is on the best chain' was not refuted (%s)" % (r.invariant or r.error))
     # vacuity guard: statements that are false of the schedulers must be refuted by the same configuration
     guards = ["X_UniqueAmongListed"] if q else ["X_UniqueAmongListed", "X_NoWait", "X_NoOff"]
     base = open(ctx.specdir(SUB) + "/MCSched_guard.cfg").read()
@@ -25,7 +33,7 @@ def design_level(ctx):
                     label="vacuity guard " + g)
         if r.invariant != g:
             raise Infra("vacuity guard: the false statement %s was not refuted (%s)" % (g, r.invariant or r.error or "no error"))
-    ctx.cov["vacuity_guards_refuted"] = guards
+    ctx.cov["vacuity_guards_refuted"] = guards + ["X_SeedOnBestChain"]
 
 
 def bind(ctx, label, args, timeout):
@@ -39,6 +47,19 @@ def bind(ctx, label, args, timeout):
     return events, summ
 
 
+def bind_seed(ctx, label, args, timeout, demo=True):
+    """scheduler/seed.go: real Seeder over real repositories with competing branches."""
+    events, summ = sc.run_seed_driver(ctx, label, args)
+    if summ is None:
+        return None, True
+    how = {"driver_args": [str(a) for a in args], "label": label, "mode": "seed"}
+    demo_ok = sc.seed_binding_demo(ctx, events) if demo else True
+    n = sc.validate_seed(ctx, events, label, how, timeout=timeout)
+    ctx.log("%s: %d repositories, %d blocks, %d Generate calls (%d with the seed block off the best chain), %d accepted"
+            % (label, summ["runs"], summ["blocks"], summ["gen_queries"], summ["queries_with_seed_block_off_best_chain"], n))
+    return (events, summ), demo_ok
+
+
 def run(ctx):
     q = ctx.quick
     if ctx.replay:
@@ -46,13 +67,21 @@ def run(ctx):
         how = art.get("how") or {}
         if "driver_args" not in how:
             raise Infra("replay artefact has no driver arguments")
-        bind(ctx, "replay-" + how.get("label", "x"), how["driver_args"], 3000)
+        if how.get("mode") == "seed":
+            bind_seed(ctx, "replay-" + how.get("label", "x"), how["driver_args"], 3000, demo=False)
+        else:
+            bind(ctx, "replay-" + how.get("label", "x"), how["driver_args"], 3000)
         ctx.cov["rule"] = "replay of " + ctx.replay
         return
 
     design_level(ctx)
     demo_ok = sc.binding_demo(ctx)
 
+    # the seed of the shuffle: real Seeder.Generate over real repositories, branches forking below / at / above seed
+    # blocks, best switching, cached and fresh Seeder instances
+    sd, sdemo_ok = bind_seed(ctx, "seeder", ["-mode", "seed", "-seed", ctx.seed, "-runs", 6 if q else 60,
+                                             "-si", 4 + ctx.seed % 3], 600 if q else 3000)
+    demo_ok = demo_ok and sdemo_ok
     summs = []
     # the same finite instance space on the REAL code: every list size, active pattern, order, me, integer time
     exh = bind(ctx, "exhaustive", ["-mode", "exh", "-seed", ctx.seed, "-maxn", 4 if q else 5, "-T", 2 if q else 3,
@@ -74,6 +103,13 @@ def run(ctx):
 
     ctx.cov["evaluations"] = sum(s["me_events"] + s["slot_events"] for s in summs)
     ctx.cov["distinct_nontrivial"] = sum(s["distinct_nontrivial"] for s in summs)
+    if sd:
+        ss = sd[1]
+        ctx.cov["evaluations"] += ss["gen_queries"]
+        ctx.cov["distinct_nontrivial"] += ss["distinct_parents_with_seed_block_off_best_chain"]
+        ctx.cov["seeder"] = ss
+        run0 = sc.split_runs(sd[0])[0]
+        ctx.sample({"seeder_run_prefix": run0[:4] + ["..."] + [e for e in run0 if e["e"] == "Gen" and e["got"] != "none"][:3]}, limit=8)
     ctx.cov["real_scheduler_calls"] = sum(s["queries"] for s in summs)
     ctx.cov["instances"] = sum(s["instances"] for s in summs)
     ctx.cov["list_sizes_large"] = big[1]["list_sizes"] if big else []
@@ -86,7 +122,8 @@ def run(ctx):
     ctx.cov["secondary_oracle_mismatches"] = sum(len(s["native_mismatches"]) for s in summs)
     ctx.cov["rule"] = ("one evaluation = one real scheduler constructed for (kind, proposer list, seed/parent, me) and queried "
                        "(Schedule over a set of times, IsTheTime over a set of times, Updates, order via IsScheduled), or one "
-                       "all-proposers acceptance probe of an instance; non-trivial = at least two eligible proposers AND some "
+                       "all-proposers acceptance probe of an instance, or one real Seeder.Generate call; non-trivial (seeder) = distinct (repository, parent) "
+                       "whose seed block was NOT on the best chain when asked; non-trivial (scheduler) = at least two eligible proposers AND some "
                        "Schedule answer had to skip a slot AND some Updates answer switched somebody off; distinct = distinct "
                        "(kind, interval, parent time, list size, order among eligible, me[, parent number for v1]) key, counted by the driver")
     # every permutation must have been realised on the real code for v2 and for the equal-weight pos vector
@@ -100,6 +137,7 @@ def run(ctx):
         "blake2b and ChaCha8 are trusted primitives; the order of proposers (v2: hash order, pos: -ln(r)/w stable order) and the "
         "v1 dprp values are FACTS computed by the driver independently of the scheduler package and explained by the real outputs",
         "proposer addresses in a list are distinct (contract invariant)",
+        "VRF (beta of a header) is a trusted primitive: betas are facts taken from vrf.Prove when the block is built",
         "weights <= 2^40 per proposer (150 proposers): activeWeight*MaxPosScore stays below 2^64; real weights are bounded by the VET supply",
         "Updates is called with an aligned time > parent time only (both use sites call it after Schedule / IsTheTime)",
         "times >= 2^31 and weight sums > 214748 are checked against the native reference only (TLC integers are 32-bit)",
